@@ -60,8 +60,8 @@ ASSUMPTIONS = [
   'docstring contradicts (time of day only "for day-based or longer intervals"); time-of-day slots in hour-based intervals are '
   'therefore neither generated as valid nor as invalid',
 ]
-BUDGET = {'quick': dict(examples=24000, shards=8, max_seconds=60),
-          'thorough': dict(examples=800000, shards=16, max_seconds=600)}
+BUDGET = {'quick': dict(examples=16000, shards=8, max_seconds=60),
+          'thorough': dict(examples=600000, shards=16, max_seconds=600)}
 
 US = 1000000
 DAY_US = 86400 * US
